@@ -437,10 +437,22 @@ var $methodSet = typ => {
     var current = [{ typ: isPtr ? typ.elem : typ, indirect: isPtr }];
 
     var seen = {};
+    // Names that are already decided at a shallower depth: a field, an ambiguous
+    // selector or a pointer-receiver method that is not in the method set hide
+    // everything with the same name further down, exactly like a usable method.
+    var decided = {};
+    var key = (name, pkg) => { return pkg === "" ? name : pkg + "." + name; };
 
     while (current.length > 0) {
         var next = [];
-        var mset = [];
+        var found = {}; // key -> { count, method (or null if not usable as a method) }
+        var declare = (k, m) => {
+            if (found[k] === undefined) {
+                found[k] = { count: 1, method: m };
+            } else {
+                found[k].count++;
+            }
+        };
 
         current.forEach(e => {
             if (seen[e.typ.id]) {
@@ -467,14 +479,19 @@ var $methodSet = typ => {
                     break;
 
                 case $kindInterface:
-                    mset = mset.concat(e.typ.methods);
+                    e.typ.methods.forEach(m => { declare(key(m.name, m.pkg), m); });
                     break;
             }
         });
 
-        mset.forEach(m => {
-            if (base[m.name] === undefined) {
-                base[m.name] = m;
+        Object.keys(found).forEach(k => {
+            if (decided[k]) {
+                return;
+            }
+            decided[k] = true;
+            var d = found[k];
+            if (d.count === 1 && d.method !== null) {
+                base[k] = d.method;
             }
         });
 
@@ -482,8 +499,8 @@ var $methodSet = typ => {
     }
 
     typ.methodSetCache = [];
-    Object.keys(base).sort().forEach(name => {
-        typ.methodSetCache.push(base[name]);
+    Object.keys(base).map(k => base[k]).sort((a, b) => { return a.name < b.name ? -1 : (a.name > b.name ? 1 : 0); }).forEach(m => {
+        typ.methodSetCache.push(m);
     });
     return typ.methodSetCache;
 };
